@@ -22,12 +22,16 @@ def vt(cfg):
     return _VT[k]
 
 
+KIND = [None]  # stream object kind for the current judgement (None = BytesIO)
+
+
 def run(data, base, q, handler, devs=None):
     cfg = dict(base)
     cfg["quitonerror"] = q
     cfg["handler"] = handler
     del LOGCAP.records[:]
-    r = run_reader(data, cfg, stream=streams.DevStream(data, devs) if devs else None)
+    st = streams.DevStream(data, devs) if devs else (streams.STREAM_KINDS[KIND[0]](data) if KIND[0] else None)
+    r = run_reader(data, cfg, stream=st)
     r.logrecs = list(LOGCAP.records)
     return r
 
@@ -112,6 +116,12 @@ def replay_case(case):
     if case.get("run"):
         data = streams.TOKENS[case["run"][0]][2] * case["run"][1] + streams.seq_bytes(("Uack", "N1", "R1"))
         return [(k + "|long_run", d[:200]) for k, d in judge(data, case["base"], None)[0]]
+    if case.get("stream_kind"):
+        KIND[0] = case["stream_kind"]
+        try:
+            return [(k + f"|stream={case['stream_kind']}", d) for k, d in judge(bytes.fromhex(case["stream"]), case["base"], tuple(case["tokens"]))[0]]
+        finally:
+            KIND[0] = None
     data = bytes.fromhex(case["stream"])
     seq = tuple(case["tokens"]) if case.get("tokens") else None
     devs = {int(k): v for k, v in case["devs"].items()} if case.get("devs") else None
@@ -137,6 +147,24 @@ def eval_block(block, acc):
                         acc.outcomes[("short-read", len(r_log.items) > 0, min(len(r_log.errors), 3))] += 1
                         for key, detail in out:
                             acc.violation(key + "|short_read", {"stream": data.hex(), "tokens": list(seq), "base": base, "devs": {str(i): sl}}, detail)
+        return
+    elif block[0] == "kinds":
+        # other kinds of stream object (pipe-like: seek/tell raise; read/readline only; BufferedReader): same 7 policy runs
+        first = block[1]
+        for seq in [(first,)] + [(first, t) for t in CLEAN_ALPHABET]:
+            data = streams.seq_bytes(seq)
+            for kind in ("nonseekable", "minimal", "buffered"):
+                for base in BASES[:2] + BASES[3:4]:
+                    KIND[0] = kind
+                    try:
+                        out, n, r_log = judge(data, base, seq)
+                    finally:
+                        KIND[0] = None
+                    acc.evaluations += n
+                    acc.transitions += n
+                    acc.outcomes[("kind", len(r_log.items) > 0, min(len(r_log.errors), 3))] += 1
+                    for key, detail in out:
+                        acc.violation(key + f"|stream={kind}", {"stream": data.hex(), "tokens": list(seq), "base": base, "stream_kind": kind}, detail)
         return
     elif block[0] == "runs":
         # 1,100 consecutive rejected frames (more than Python's recursion limit) and then three good frames
@@ -179,6 +207,7 @@ def run_tier(tier, t0):
     blocks += [("tokens", f, kf, "all") for f in ALPHABET]
     blocks.append(("long",))
     blocks += [("short", f) for f in streams.FRAME_TOKENS]
+    blocks += [("kinds", f) for f in streams.FRAME_TOKENS]
     blocks += [("runs", t, 1100) for t in ("Ubad", "Nbad", "Rbad", "Ntype")]
     acc = engine.sweep(blocks, eval_block)
     engine.finish(
@@ -190,7 +219,7 @@ def run_tier(tier, t0):
         ),
         assumptions=[
             "a rejected frame's exception is what the protocol parser raises for the token standalone (O4)",
-            "extra rings: boundary-length and content-refused frames between neighbour pairs; runs of 1,100 consecutive rejected frames of each protocol followed by three good frames",
+            "extra rings: token sequences of <= 2 through a pipe-like stream (seek/tell raise), a read/readline-only object and a BufferedReader; boundary-length and content-refused frames between neighbour pairs; runs of 1,100 consecutive rejected frames of each protocol followed by three good frames",
             "without an error handler the reader reports through the logging module (records captured at the root logger)",
         ],
         vacuity=[
